@@ -167,6 +167,10 @@ func (fv *FnV) callUser(st *State, call *ast.CallExpr, key string, o *types.Func
 		return fv.havocResults(st, sig)
 	}
 
+	if fv.fc != nil && fv.fc.Opaque[key] && len(fv.frames) == 1 && !fv.spec {
+		fv.tag("callee-opaque-here:" + key)
+		return fv.contractCall(st, call, key, fd, nil, sig, args, subst)
+	}
 	onStack := false
 	for _, fr := range fv.frames {
 		if fr.key == key {
